@@ -25,6 +25,9 @@
 //! convex-hull certificate (`chkHull`: control points of `split_range` sub-ranges near one emitted
 //! segment; cubics directly on the cubic). The same verdict is computed here in exact dyadic arithmetic
 //! (`data/c09_exact.rs`) for the TAG/ORCL lines; the Lean checker answers MISMATCH if it disagrees.
+//! Family `chk_arc`: the same for `Arc::for_each_flattened_with_t`, trigonometry-free (`Lyon.ArcChk`,
+//! `chk_arc_sound_rat`). TAG tokens carry the verdict statistics (kind, precision, proved factor /
+//! violation, `tol-exact` = the eps-free convex-hull verdict where it was evaluated).
 
 use lyon_geom::euclid::Angle;
 use lyon_geom::{point, vector, Arc, CubicBezierSegment, LineSegment, Point, QuadraticBezierSegment, Segment};
@@ -1341,7 +1344,7 @@ struct ChkOut {
     check: Option<Out>,
 }
 
-fn chk_result(kind: &str, v: &exact::Verdict, class: &str, nsegs: usize, check: Out) -> ChkOut {
+fn chk_result(kind: &str, bits: u32, v: &exact::Verdict, class: &str, nsegs: usize, check: Out) -> ChkOut {
     let vs = v.string();
     let orcl = if !v.structure {
         vh::Verdict::fail(&format!("{}.flatten/certified-structure", kind), "generic", vs.clone())
@@ -1358,14 +1361,21 @@ fn chk_result(kind: &str, v: &exact::Verdict, class: &str, nsegs: usize, check: 
     } else {
         vh::Verdict::Skip(format!("chk_flat:{}:{} {}", kind, v.bucket(), vs))
     };
-    ChkOut { tag: format!("chk_flat {} {}", kind, v.bucket()), imp: format!("verdict {}", vs), orcl, check: Some(check) }
+    // verdict statistics as TAG tokens (evidence: input_distribution.tags): kind, precision, proved
+    // factor / violation, and - where evaluated - whether `within 1·tol` is proved with no eps at all
+    let free = match v.free {
+        Some(true) => " tol-exact",
+        Some(false) if v.viol.is_none() && v.final_idx() == 0 => " tol+eps-only",
+        _ => "",
+    };
+    ChkOut { tag: format!("chk_flat {}{} {}{}", kind, bits, v.bucket(), free), imp: format!("verdict {}", vs), orcl, check: Some(check) }
 }
 
 fn chk_skip(kind: &str, why: &str) -> ChkOut {
     ChkOut { tag: format!("chk_flat {} {}", kind, why), imp: format!("none {}", why), orcl: vh::Verdict::Skip(format!("chk_flat:{}:{}", kind, why)), check: None }
 }
 
-fn chk_quad<S: Fl>(q: QuadraticBezierSegment<S>, tol: S) -> ChkOut {
+fn chk_quad<S: Fl>(q: QuadraticBezierSegment<S>, tol: S, eflag: bool) -> ChkOut {
     let r = vh::guarded(|| {
         let mut cbt = CbT::new();
         q.for_each_flattened_with_t(tol, &mut |s, r| cbt.push(s, r));
@@ -1385,7 +1395,7 @@ fn chk_quad<S: Fl>(q: QuadraticBezierSegment<S>, tol: S) -> ChkOut {
     let qx = exact::QuadX { a: px(q.from), c: px(q.ctrl), b: px(q.to) };
     let l = segs_x(&cbt);
     let (eps, _) = exact::choose_eps(&exact::max_vtx_sq(&qx, &l), S::EPS * c.mag());
-    let v = exact::verdict_quad(&qx, &dx(tol), &exact::Dy::from_f64(eps), &l);
+    let v = exact::verdict_quad(&qx, &dx(tol), &exact::Dy::from_f64(eps), &l, eflag);
     let near = overshoot_pred(&c, tol.f()) && rel_cross(&c) <= 64.0 * S::EPS;
     // a violation of an input that is PROVED within 1.15·tol + eps is the approximate count
     // (finding approx-integral) whatever else the input looks like; otherwise the witness predicates
@@ -1403,12 +1413,12 @@ fn chk_quad<S: Fl>(q: QuadraticBezierSegment<S>, tol: S) -> ChkOut {
         "generic"
     };
     let mut o = Out::new();
-    o.t("q").t(&v.string()).t(class).f(tol).f(eps).p(q.from).p(q.ctrl).p(q.to);
+    o.t(if eflag { "qe" } else { "q" }).t(&v.string()).t(class).f(tol).f(eps).p(q.from).p(q.ctrl).p(q.to);
     put_segs(&mut o, &cbt);
-    chk_result("quad", &v, class, l.len(), o)
+    chk_result("quad", S::BITS, &v, class, l.len(), o)
 }
 
-fn chk_cubic<S: Fl>(c: CubicBezierSegment<S>, tol: S) -> ChkOut {
+fn chk_cubic<S: Fl>(c: CubicBezierSegment<S>, tol: S, eflag: bool) -> ChkOut {
     let tol4 = tol * <S as lyon_geom::Scalar>::value(0.4);
     let tol6 = tol * <S as lyon_geom::Scalar>::value(0.6);
     let r = vh::guarded(|| {
@@ -1460,7 +1470,7 @@ fn chk_cubic<S: Fl>(c: CubicBezierSegment<S>, tol: S) -> ChkOut {
     let ps: Vec<exact::PieceX> =
         pieces.iter().map(|p| exact::PieceX { q: exact::QuadX { a: px(p.0.from), c: px(p.0.ctrl), b: px(p.0.to) }, t0: dx(p.1), t1: dx(p.2), l: segs_x(&p.3) }).collect();
     let (eps, _) = exact::choose_eps(&exact::max_vtx_sq_cubic(&cx, &ps), S::EPS * k.mag());
-    let v = exact::verdict_cubic(&cx, &dx(tol), &dx(tol6), &dx(tol4), &exact::Dy::from_f64(eps), &ps, &segs_x(&cbt));
+    let v = exact::verdict_cubic(&cx, &dx(tol), &dx(tol6), &dx(tol4), &exact::Dy::from_f64(eps), &ps, &segs_x(&cbt), eflag);
     let (coll, near, over, sharp, _) = cubic_preds(&c, tol);
     let class = if v.k_idx <= 2 {
         "approx-integral"
@@ -1476,7 +1486,7 @@ fn chk_cubic<S: Fl>(c: CubicBezierSegment<S>, tol: S) -> ChkOut {
         "generic"
     };
     let mut o = Out::new();
-    o.t("c").t(&v.string()).t(class).f(tol).f(tol6).f(tol4).f(eps).p(c.from).p(c.ctrl1).p(c.ctrl2).p(c.to);
+    o.t(if eflag { "ce" } else { "c" }).t(&v.string()).t(class).f(tol).f(tol6).f(tol4).f(eps).p(c.from).p(c.ctrl1).p(c.ctrl2).p(c.to);
     o.u(pieces.len() as u64);
     for p in &pieces {
         o.p(p.0.from).p(p.0.ctrl).p(p.0.to).f(p.1).f(p.2);
@@ -1484,10 +1494,10 @@ fn chk_cubic<S: Fl>(c: CubicBezierSegment<S>, tol: S) -> ChkOut {
     }
     // the entry point's own segments with their ranges on the cubic (convex-hull certificate)
     put_segs(&mut o, &cbt);
-    chk_result("cubic", &v, class, total, o)
+    chk_result("cubic", S::BITS, &v, class, total, o)
 }
 
-fn chk_case<S: Fl>(ctx: &mut Ctx, cubic: bool) {
+fn chk_case<S: Fl>(ctx: &mut Ctx, cubic: bool, eflag: bool) {
     ctx.case_check("chk_flat", |rng| {
         let sh = pick_shape(rng);
         let mut args = Out::new();
@@ -1496,14 +1506,142 @@ fn chk_case<S: Fl>(ctx: &mut Ctx, cubic: bool) {
             let c = CubicBezierSegment { from: pts[0], ctrl1: pts[1], ctrl2: pts[2], to: pts[3] };
             let tol: S = gen_tol(rng, size_of(&pts));
             args.t("c").u(S::BITS as u64).p(c.from).p(c.ctrl1).p(c.ctrl2).p(c.to).f(tol);
-            chk_cubic(c, tol)
+            chk_cubic(c, tol, eflag)
         } else {
             let pts: Vec<Point<S>> = quad_points(rng, sh);
             let q = QuadraticBezierSegment { from: pts[0], ctrl: pts[1], to: pts[2] };
             let tol: S = gen_tol(rng, size_of(&pts));
             args.t("q").u(S::BITS as u64).p(q.from).p(q.ctrl).p(q.to).f(tol);
-            chk_quad(q, tol)
+            chk_quad(q, tol, eflag)
         };
+        let tag = res.tag.clone();
+        (args, tag, move || {
+            let mut o = Out::new();
+            o.t(&res.imp);
+            (CaseOut { imp: o, orcl: res.orcl }, res.check)
+        })
+    });
+}
+
+// ---------------------------------------------------------------------------------------------
+// Family `chk_arc`: the exact, trigonometry-free checker for ARCS (`Lyon.ArcChk`, theorem
+// `chk_arc_sound_rat`, Props/C09d.lean). The ellipse is A(unit circle), A(p) = center + Rot(c,s)(rx·p.x,
+// ry·p.y), the rotation given as a half-angle tangent (so c² + s² = 1 exactly); every emitted vertex
+// comes with an advice point of the unit circle, derived here from the vertex itself (half-angle
+// tangent of its pre-image's direction). The checker verifies: segments chained exactly with
+// increasing ranges, vertices within eps of A(advice), every chord's sagitta ≤ k·tol (rational test
+// L² ≤ 4τ(2−τ), τ = min(k·tol/R, 1), R the largest radius). NOT verified by it (no trigonometry):
+// that (c,s) is cos/sin of x_rotation to 1e-16 and that the advice points run once along lyon's arc
+// from start to end — cross-checked here in f64 (total turning vs sweep; otherwise skip sweep-mismatch).
+
+/// (half-angle tangent, flip) of the direction (a, b)
+fn half_tan(a: f64, b: f64) -> (f64, bool) {
+    let n = a.hypot(b);
+    let (a, b) = (a / n, b / n);
+    if a >= 0.0 {
+        (b / (1.0 + a), false)
+    } else {
+        (-b / (1.0 - a), true)
+    }
+}
+
+fn arc_skip(why: &str) -> ChkOut {
+    ChkOut { tag: format!("chk_arc {}", why), imp: format!("none {}", why), orcl: vh::Verdict::Skip(format!("chk_arc:{}", why)), check: None }
+}
+
+fn chk_arc<S: Fl>(a: Arc<S>, tol: S) -> ChkOut {
+    let kind = "arc";
+    let r = vh::guarded(|| {
+        let mut cbt = CbT::new();
+        a.for_each_flattened_with_t(tol, &mut |s, r| cbt.push(s, r));
+        (cbt, a.from(), a.to())
+    });
+    let (cbt, p0, pe) = match r {
+        Some(c) => c,
+        None => return arc_skip("panic"),
+    };
+    let (rx, ry) = (a.radii.x.f(), a.radii.y.f());
+    if !cbt_finite(&cbt) || !(p0.x.finite() && p0.y.finite() && pe.x.finite() && pe.y.finite()) {
+        return arc_skip("non-finite");
+    }
+    if rx == 0.0 || ry == 0.0 {
+        return arc_skip("degenerate-radii");
+    }
+    if cbt.tos.len() > CHK_MAX_SEGS {
+        return arc_skip("too-many-segments");
+    }
+    let big_r = rx.abs().max(ry.abs());
+    let rot = a.x_rotation.radians.f();
+    let (w, wflip) = half_tan(rot.cos(), rot.sin());
+    let (cx, cy) = (a.center.x.f(), a.center.y.f());
+    let (cr, sr) = (rot.cos(), rot.sin());
+    let advice = |p: Point<S>| -> (f64, bool, (f64, f64)) {
+        let (dx, dy) = (p.x.f() - cx, p.y.f() - cy);
+        let (x, y) = (cr * dx + sr * dy, -sr * dx + cr * dy);
+        let (u, v) = (x / rx, y / ry);
+        let n = u.hypot(v);
+        let (h, f) = half_tan(u, v);
+        (h, f, (u / n, v / n))
+    };
+    // total turning of the advice points against the sweep (f64, unverified cross-check)
+    let mut turning = 0.0f64;
+    let mut items: Vec<(f64, bool, f64, bool)> = vec![];
+    for i in 0..cbt.tos.len() {
+        let (ua, fa, da) = advice(cbt.froms[i]);
+        let (ub, fbb, db) = advice(cbt.tos[i]);
+        turning += (da.0 * db.1 - da.1 * db.0).atan2(da.0 * db.0 + da.1 * db.1);
+        items.push((ua, fa, ub, fbb));
+    }
+    let sweep = a.sweep_angle.radians.f() * (rx * ry).signum();
+    if !items.iter().all(|x| x.0.is_finite() && x.2.is_finite()) {
+        return arc_skip("non-finite");
+    }
+    if (turning - sweep).abs() > 1e-3 * (1.0 + sweep.abs()) {
+        return arc_skip("sweep-mismatch");
+    }
+    let frame = exact::FrameX { center: px(a.center), rx: dx(a.radii.x), ry: dx(a.radii.y), rot: exact::UPt::of(w, wflip) };
+    let l: Vec<exact::ArcSegX> = segs_x(&cbt)
+        .into_iter()
+        .zip(items.iter())
+        .map(|(sg, it)| exact::ArcSegX { sg, pa: exact::UPt::of(it.0, it.1), pb: exact::UPt::of(it.2, it.3) })
+        .collect();
+    let unit = S::EPS * (cx.abs().max(cy.abs()) + big_r);
+    let mut eps = 64.0 * unit;
+    for k in 0..7 {
+        let e = (1u32 << k) as f64 * unit;
+        if frame.vtx_all(&l, e) {
+            eps = e;
+            break;
+        }
+    }
+    let v = exact::verdict_arc(&frame, &exact::Dy::from_f64(big_r), &dx(tol), eps, &px(p0), &px(pe), &l);
+    let vs = v.string();
+    let mut o = Out::new();
+    o.t(&vs).f(tol.f()).f(eps).f(cx).f(cy).f(rx).f(ry).f(big_r).f(w).b(wflip).f(p0.x.f()).f(p0.y.f()).f(pe.x.f()).f(pe.y.f());
+    o.u(cbt.tos.len() as u64);
+    for i in 0..cbt.tos.len() {
+        o.f(cbt.froms[i].x.f()).f(cbt.froms[i].y.f()).f(cbt.tos[i].x.f()).f(cbt.tos[i].y.f()).f(cbt.ranges[i].0.f()).f(cbt.ranges[i].1.f());
+        o.f(items[i].0).b(items[i].1).f(items[i].2).b(items[i].3);
+    }
+    let orcl = if !v.structure {
+        vh::Verdict::fail("arc.flatten/certified-structure", "generic", vs.clone())
+    } else if v.vtx && v.k_idx == 0 {
+        vh::Verdict::Ok
+    } else {
+        vh::Verdict::Skip(format!("chk_arc:{} {}", v.bucket(), vs))
+    };
+    let shape = if rx.abs() == ry.abs() { "circle" } else { "ellipse" };
+    ChkOut { tag: format!("chk_arc {}{} {}", shape, S::BITS, v.bucket()), imp: format!("verdict {}", vs), orcl, check: Some(o) }
+}
+
+fn chk_arc_case<S: Fl>(ctx: &mut Ctx) {
+    ctx.case_check("chk_arc", |rng| {
+        let (a, _) = gen_arc::<S>(rng);
+        let size = a.radii.x.f().max(a.radii.y.f());
+        let tol: S = gen_tol(rng, size * 10.0);
+        let mut args = Out::new();
+        args.u(S::BITS as u64).p(a.center).v(a.radii).f(a.start_angle.radians).f(a.sweep_angle.radians).f(a.x_rotation.radians).f(tol);
+        let res = chk_arc(a, tol);
         let tag = res.tag.clone();
         (args, tag, move || {
             let mut o = Out::new();
@@ -1533,11 +1671,20 @@ fn main() {
     // exact checker family (ids after everything else): a sample in the quick tier, as many as the
     // sampled families in the thorough tier
     let m = ctx.n(250, 30000);
-    for _ in 0..m {
-        chk_case::<f32>(&mut ctx, false);
-        chk_case::<f64>(&mut ctx, false);
-        chk_case::<f32>(&mut ctx, true);
-        chk_case::<f64>(&mut ctx, true);
+    // eps-free verdict (hull checker on EVERY case): all of the thorough tier, every 2nd round of the quick tier
+    let thorough = m > 250;
+    for i in 0..m {
+        let e = thorough || i % 2 == 0;
+        chk_case::<f32>(&mut ctx, false, e);
+        chk_case::<f64>(&mut ctx, false, e);
+        chk_case::<f32>(&mut ctx, true, e);
+        chk_case::<f64>(&mut ctx, true, e);
+    }
+    // exact arc checker (ids after everything else)
+    let ma = ctx.n(250, 30000);
+    for _ in 0..ma {
+        chk_arc_case::<f32>(&mut ctx);
+        chk_arc_case::<f64>(&mut ctx);
     }
     ctx.finish();
 }
